@@ -841,3 +841,82 @@ Proof.
   unfold check_partial_on_disk. cbn [s_ondisk].
   destruct (ondisk_init <? 0) eqn:E2; [apply N.ltb_lt in E2; lia|]. reflexivity.
 Qed.
+
+(* ------------------------------------------------------------------ *)
+(* life after the repair: entries appended above the imported index     *)
+
+Lemma filter_mk_entries_all n : forall first term lo mx,
+  lo < first -> first + N.of_nat n <= mx + 1 ->
+  filter (fun e => (lo <? fst e) && (fst e <=? mx)) (mk_entries n first term) = mk_entries n first term.
+Proof.
+  induction n as [|n IH]; intros first term lo mx Hlo Hmx; cbn [mk_entries filter]; [reflexivity|].
+  cbn [fst].
+  assert (E1 : lo <? first = true) by (apply N.ltb_lt; exact Hlo).
+  assert (E2 : first <=? mx = true) by (apply N.leb_le; lia).
+  rewrite E1, E2. cbn [andb]. f_equal. apply IH; lia.
+Qed.
+
+Lemma filter_none {A} (f : A -> bool) l : (forall x, In x l -> f x = false) -> filter f l = [].
+Proof.
+  induction l as [|x r IH]; intros H; cbn [filter]; [reflexivity|].
+  rewrite (H x (or_introl eq_refl)). apply IH. intros y Hy. apply H. right. exact Hy.
+Qed.
+
+Lemma filter_all {A} (f : A -> bool) l : (forall x, In x l -> f x = true) -> filter f l = l.
+Proof.
+  induction l as [|x r IH]; intros H; cbn [filter]; [reflexivity|].
+  rewrite (H x (or_introl eq_refl)). f_equal. apply IH. intros y Hy. apply H. right. exact Hy.
+Qed.
+
+Lemma mk_entries_above n : forall first term e, In e (mk_entries n first term) -> first <= fst e.
+Proof.
+  induction n as [|n IH]; intros first term e; cbn [mk_entries In]; [tauto|].
+  intros [<-|H]; [cbn; lia|]. apply IH in H. lia.
+Qed.
+
+(* whatever the store held before the import: k entries appended right above
+   the imported index are exactly what is visible above it afterwards *)
+Lemma entries_after_import_readable_proved ls ss ls' k term :
+  s_index ss <> 0 -> logdb_import ls ss = LOk ls' ->
+  ls_visible_entries (apply_lsop ls' (LSaveEntries (s_index ss + 1) k term)) (s_index ss) =
+  mk_entries (N.to_nat k) (s_index ss + 1) term.
+Proof.
+  intros Hi H. unfold logdb_import in H. destruct (s_type ss =? sm_unknown) eqn:Ht; [discriminate|].
+  rewrite import_wb_effect in H by exact Hi. injection H as <-.
+  cbn [apply_lsop]. destruct (k =? 0) eqn:Hk.
+  - apply N.eqb_eq in Hk. subst k. cbn [N.to_nat mk_entries].
+    unfold ls_visible_entries. cbn [ls_maxindex ls_entries].
+    apply filter_none. intros e _. destruct (s_index ss <? fst e) eqn:E1; [|reflexivity].
+    destruct (fst e <=? s_index ss) eqn:E2; [|reflexivity].
+    apply N.ltb_lt in E1. apply N.leb_le in E2. lia.
+  - apply N.eqb_neq in Hk. unfold ls_visible_entries.
+    cbn [ls_state ls_bootstrap ls_maxindex ls_snapshots ls_entries].
+    rewrite filter_app. rewrite filter_none.
+    + cbn [app]. apply filter_mk_entries_all; [lia|]. rewrite N2Nat.id. lia.
+    + intros e He. apply filter_In in He as [_ He]. cbn [fst] in He.
+      apply N.ltb_lt in He. destruct (s_index ss <? fst e) eqn:E1; [|reflexivity].
+      apply N.ltb_lt in E1. lia.
+Qed.
+
+Lemma tan_entries_after_import_readable_proved t ss k term :
+  s_index ss <> 0 ->
+  ts_visible_entries (apply_tsop (tan_import_t t ss) (LSaveEntries (s_index ss + 1) k term)) (s_index ss) =
+  mk_entries (N.to_nat k) (s_index ss + 1) term.
+Proof.
+  intros Hi. unfold tan_import_t. change tan_remove_all_resets_compaction with true. cbn iota.
+  unfold apply_tsop, ts_visible_entries. cbn [ts_ls ts_compacted].
+  assert (V : ls_visible_entries (apply_lsop (tan_import (ts_ls t) ss) (LSaveEntries (s_index ss + 1) k term)) (s_index ss)
+              = mk_entries (N.to_nat k) (s_index ss + 1) term).
+  { unfold tan_import. cbn [apply_lsop]. destruct (k =? 0) eqn:Hk.
+    - apply N.eqb_eq in Hk. subst k. reflexivity.
+    - apply N.eqb_neq in Hk. unfold ls_visible_entries.
+      cbn [ls_state ls_bootstrap ls_maxindex ls_snapshots ls_entries filter app].
+      apply filter_mk_entries_all; [lia|]. rewrite N2Nat.id. lia. }
+  rewrite V. apply filter_all. intros e He. apply mk_entries_above in He.
+  apply N.ltb_lt. lia.
+Qed.
+
+(* the tool and NewNodeHost open the log store in the same place *)
+Lemma tool_opens_store_where_nodehost_does_proved nhdir waldir :
+  tool_store_dirs nhdir waldir = nodehost_store_dirs nhdir waldir.
+Proof. reflexivity. Qed.
